@@ -216,7 +216,7 @@ def main(argv):
                        'the sampled histories only decide whether the real component still behaves like the model',
                        'storage owned by the component (not shared with other components), default interleaved bank selector']
     thorough = vlib.tier() == 'thorough'
-    n = 3000 if thorough else 300
+    n = 3000 if thorough else 220
 
     replay_file = None
     if '--replay' in argv:
